@@ -34,7 +34,9 @@ def build(repo: str, real_workflow: bool = False) -> Program:
     p.opaque('AbsState')
     p.klass('Circuit', None, [], {'num_qudits': 'int'}, opaque=True,
             returns={'copy': 'Circuit'})
-    p.klass('MachineModel', None, [], {'num_qudits': 'int'}, opaque=True)
+    p.klass('MachineModel', None, [], {
+        'num_qudits': 'int', 'radixes': 'Any',
+    }, opaque=True)
     p.klass('Predicate', None, [], {}, opaque=True,
             returns={'__call__': 'bool'}, pure=['__call__'])
     p.klass('Decider', None, [], {}, opaque=True,
@@ -68,6 +70,10 @@ def build(repo: str, real_workflow: bool = False) -> Program:
         'condition': 'Decider', 'workflow': 'Workflow',
     })
     p.klass('ApplyPlacement', 'bqskit/passes/mapping/apply.py', [], {})
+    p.klass('GeneralizedSabreAlgorithm', 'bqskit/passes/mapping/sabre.py',
+            [], {'decay_delta': 'float'})
+    p.klass('SetModelPass', 'bqskit/passes/mapping/setmodel.py', [],
+            {'model': 'MachineModel'})
     p.finish()
 
     # assumed contracts of the opaque data carriers
